@@ -44,11 +44,20 @@ def launch(spec: dict, pyc_prefix: str, timeout: int = 300, freeze_cache: bool =
         # after the warm-up the byte-code cache is read-only: a module missing from it is compiled by *every*
         # process that needs it, so compile-vs-load (which shifts heap addresses) never depends on a race
         env["PYTHONDONTWRITEBYTECODE"] = "1"
+    # a private scratch directory for the simulated process (script files on disk, external-data files); the path has a
+    # constant length so that it does not disturb the replay of heap addresses
+    import shutil
+    import tempfile
+
+    scratch = tempfile.mkdtemp(prefix="n-", dir=os.path.dirname(pyc_prefix))
+    env["DSIM_SCRATCH"] = scratch
     try:
         p = subprocess.run(command(spec["env"].get("aslr_off", True)), input=json.dumps(spec).encode(), env=env, cwd="/",
                            capture_output=True, timeout=timeout)
     except subprocess.TimeoutExpired:
         return {"error": f"timeout after {timeout}s"}
+    finally:
+        shutil.rmtree(scratch, ignore_errors=True)
     if p.returncode != 0:
         return {"error": f"node exit {p.returncode}: {p.stderr.decode(errors='replace')[-1500:]}"}
     try:
